@@ -52,12 +52,9 @@ class RangelistModel(object):
         
         i=0
         while i < len(self.range_l)-1:
-            if self.range_l[i][0] >= self.range_l[i+1][0]:
-                # Entire range subsumed
-                self.range_l.pop(i)
-            elif self.range_l[i][1] >= self.range_l[i+1][1]:
-                # Upper just overlaps
-                self.range_l[i][1] = self.range_l[i+1][0]
+            if self.range_l[i+1][0] <= self.range_l[i][1]:
+                # Ranges overlap: merge into a single range
+                self.range_l[i][1] = max(self.range_l[i][1], self.range_l[i+1][1])
                 self.range_l.pop(i+1)
             else:
                 i += 1
